@@ -115,3 +115,27 @@ func (s *Scratch) Check() string {
 	}
 	return ""
 }
+
+// ScribbleI32 / ScribbleU64 / ScribbleBytes overwrite the spare capacity of a slice the
+// library returned (what a caller's append would do). Results must not overlap: afterwards every
+// other result, and later calls, must be unaffected.
+func ScribbleI32(s []int32) {
+	f := s[:cap(s)]
+	for i := len(s); i < len(f); i++ {
+		f[i] = int32(-0x5C21BB1E - i)
+	}
+}
+
+func ScribbleU64(s []uint64) {
+	f := s[:cap(s)]
+	for i := len(s); i < len(f); i++ {
+		f[i] = 0x5C21BB1E5C21BB1E ^ uint64(i)
+	}
+}
+
+func ScribbleBytes(s []byte) {
+	f := s[:cap(s)]
+	for i := len(s); i < len(f); i++ {
+		f[i] = byte(0x5C ^ i)
+	}
+}
